@@ -58,6 +58,7 @@ fn drive(args: &[String]) {
     "c18" => c18::drive(vectors, seed, out, thorough),
     "c12" => c12::drive(vectors.expect("--vectors"), out),
     "c13" => c13::drive(seed, out, thorough),
+    "c11" => c11::drive(vectors.expect("--vectors"), seed, out, thorough),
     "rules" => rules::drive(opt(args, "--universe").expect("--universe"), vectors.expect("--vectors"), out),
     "c20" => c20::drive(vectors.expect("--vectors"), out),
     _ => {
